@@ -174,6 +174,39 @@ def gen_doc(rng, min_widgets=2, max_widgets=5, want_dynamic=True):
             if h:
                 w["handlers"].append(list(h))
         doc["widgets"].append(w)
+    # constant attached properties that the layout consumes (they exist only as attributes of the <layout> element): each
+    # value is a number found nowhere else in the document, set by children in document order - so a higher row/column is
+    # often set before a lower one
+    lay = doc["layout"]
+    if lay == "QGridLayout" and rng.chance(0.7):
+        doc["layout_props"] = ["columns: %d" % rng.randint(2, 3)]
+    if rng.chance(0.6):
+        cols = int(doc.get("layout_props", ["columns: 0"])[0].split(":")[1]) if doc.get("layout_props") else 0
+        marker = [100 + rng.randint(1, 20)]
+        taken = {"columnStretch": set(), "rowStretch": set(), "columnMinimumWidth": set(), "rowMinimumHeight": set()}
+
+        def mark(w, kind, index):
+            if index in taken[kind] or not rng.chance(0.5):
+                return
+            taken[kind].add(index)
+            marker[0] += rng.randint(1, 9)
+            w["props"].insert(rng.randint(0, len(w["props"])), ["QLayout." + kind, str(marker[0])])
+        for k, w in enumerate(doc["widgets"]):
+            if lay == "QVBoxLayout":
+                mark(w, "rowStretch", k)
+            elif lay == "QHBoxLayout":
+                mark(w, "columnStretch", k)
+            elif lay == "QGridLayout" and cols:
+                mark(w, "columnStretch", k % cols)
+                mark(w, "rowStretch", k // cols)
+                mark(w, "columnMinimumWidth", k % cols)
+                # at most one per row AND per column: the pinned tree files this one under the child's column (a C12 defect,
+                # DESIGN.md section 10), and the documents must be acceptable whichever index is used
+                if (k % cols) + 1000 not in taken["rowMinimumHeight"]:
+                    n0 = len(taken["rowMinimumHeight"])
+                    mark(w, "rowMinimumHeight", k // cols)
+                    if len(taken["rowMinimumHeight"]) > n0:
+                        taken["rowMinimumHeight"].add((k % cols) + 1000)
     if want_dynamic and ndyn == 0:
         # force one dynamic binding on the first widget that can take it
         for w in doc["widgets"]:
@@ -190,6 +223,11 @@ def gen_doc(rng, min_widgets=2, max_widgets=5, want_dynamic=True):
             if ndyn:
                 break
     return doc
+
+
+def markers(doc):
+    """numbers that occur exactly once in the document, as the value of a constant attached property its layout consumes"""
+    return sorted(int(p[1]) for w in doc["widgets"] for p in w["props"] if p[0].startswith("QLayout.") and p[1].isdigit() and int(p[1]) > 100)
 
 
 def render(doc):
@@ -211,6 +249,8 @@ def render(doc):
     if plant and plant["where"] == "root":
         emit(4, plant["text"], ("plant",))
     emit(4, doc["layout"] + " {")
+    for lp in doc.get("layout_props", []):
+        emit(8, lp)
     for wi, w in enumerate(doc["widgets"]):
         emit(8, w["cls"] + " {")
         if w["id"]:
@@ -285,6 +325,8 @@ def edit(rng, doc):
         if op == "drop_widget":
             texts = " ".join(p[1] for w in d["widgets"] for p in w["props"]) + " " + " ".join(h[1] for w in d["widgets"] for h in w["handlers"])
             cands = [wi for wi, w in enumerate(d["widgets"]) if w["id"] and (w["id"] + ".") not in texts]
+            if any(p[0].startswith("QLayout.") and p[1].isdigit() for w in d["widgets"] for p in w["props"]):
+                cands = [wi for wi in cands if wi == len(d["widgets"]) - 1]   # positions carry attached values: only the last may go
             if cands and len(d["widgets"]) > 2:
                 del d["widgets"][rng.choice(cands)]
                 return d, op
